@@ -6,6 +6,7 @@ import AioftpModel.Driver.Session
 import AioftpModel.Driver.Lifecycle
 import AioftpModel.Driver.Perms
 import AioftpModel.Driver.Faults
+import AioftpModel.Driver.Abort
 import AioftpModel.Driver.Logs
 
 open Codec Model Py
@@ -49,6 +50,7 @@ def handlePure : List String → Option String
   | "life" :: rest => DriverLifecycle.handleLife rest
   | "perms" :: rest => DriverPerms.handlePerms rest
   | "fault" :: rest => DriverFaults.handleFaults rest
+  | "abor" :: rest => DriverAbort.handleAbort rest
   | "logs" :: rest => DriverLogs.handleLogs rest
   | _ => none
 
